@@ -329,33 +329,33 @@ Ltac regress ls d :=
 Definition regression (ls : list line) (d : doc) : Prop :=
   exists ts, sem d = Some ts /\ lays_out ls d /\ reads_exactly (render_doc ls) ts = true.
 
-(** <commit-4>: <#frag> keeps its '#' *)
+(** 1ba9679: <#frag> keeps its '#' *)
 Example C07_fragment_regression :
   regression [base_line "http://b/d/"; L_ex; one_line exs exp (OIri (IRel (Str "#frag")))]
              [IDir (DBase (IAbs (Str "http://b/d/"))); P_ex; one exs exp (OIri (IRel (Str "#frag")))].
 Proof. regress [base_line "http://b/d/"; L_ex; one_line exs exp (OIri (IRel (Str "#frag")))]
                [IDir (DBase (IAbs (Str "http://b/d/"))); P_ex; one exs exp (OIri (IRel (Str "#frag")))]. Qed.
 
-(** <commit-5>: an absolute IRI without "http" is left alone when a base is declared *)
+(** 8416f2b: an absolute IRI without "http" is left alone when a base is declared *)
 Example C07_abs_test_regression :
   regression [base_line "http://b/"; L_ex; one_line exs exp (OIri (IAbs (Str "urn:a:b")))]
              [IDir (DBase (IAbs (Str "http://b/"))); P_ex; one exs exp (OIri (IAbs (Str "urn:a:b")))].
 Proof. regress [base_line "http://b/"; L_ex; one_line exs exp (OIri (IAbs (Str "urn:a:b")))]
                [IDir (DBase (IAbs (Str "http://b/"))); P_ex; one exs exp (OIri (IAbs (Str "urn:a:b")))]. Qed.
 
-(** <commit-3>: a base not starting with "http" is applied once *)
+(** 466698d: a base not starting with "http" is applied once *)
 Example C07_double_base_regression :
   regression [base_line "ftp://b/"; L_ex; one_line (SIri (IRel (Str "s"))) exp (OIri (ex "o"))]
              [IDir (DBase (IAbs (Str "ftp://b/"))); P_ex; one (SIri (IRel (Str "s"))) exp (OIri (ex "o"))].
 Proof. regress [base_line "ftp://b/"; L_ex; one_line (SIri (IRel (Str "s"))) exp (OIri (ex "o"))]
                [IDir (DBase (IAbs (Str "ftp://b/"))); P_ex; one (SIri (IRel (Str "s"))) exp (OIri (ex "o"))]. Qed.
 
-(** <commit-6>: only the leading prefix of a prefixed name is expanded *)
+(** e84df11: only the leading prefix of a prefixed name is expanded *)
 Example C07_replace_once_regression :
   regression [L_ex; one_line exs exp (OIri (ex "aex:b"))] [P_ex; one exs exp (OIri (ex "aex:b"))].
 Proof. regress [L_ex; one_line exs exp (OIri (ex "aex:b"))] [P_ex; one exs exp (OIri (ex "aex:b"))]. Qed.
 
-(** <commit-1>: a literal at the first column of a line that carries a comment;
+(** 74ab28b: a literal at the first column of a line that carries a comment;
     blank-# inside the second literal of a line; a whole-line comment with a quote and blank-# *)
 Example C07_comment_scan_regression :
   regression [L_ex; LToks [] [] (Some (Str " a "" #b")); toks_line [ASubj exs; APred exp];
@@ -392,7 +392,7 @@ Definition no_error (text : str) : bool := match snd (read_ttl text) with Ok _ =
 Definition P_text : str := Str "@prefix ex: <http://e/> .".
 Definition nl (a b : str) : str := a ++ newline ++ b.
 
-(** <commit-2>: a document ending inside a statement now raises *)
+(** 3b3f82c: a document ending inside a statement now raises *)
 Example C07_end_of_input_regression :
   read_ttl (nl P_text (Str "ex:s ex:p ex:o.")) = ([], Err TEValue) /\
   read_ttl (nl P_text (Str "ex:s ex:p ex:o")) = ([], Err TEValue).
